@@ -1,4 +1,5 @@
 CONSTANTS
+  RecordPath = FALSE
   MaxSteps = 4
   MaxTrs = 2
   Kinds = {"audio", "video"}
